@@ -34,6 +34,9 @@ type kind struct {
 	// anyOrder (with dupOf): the responses carry the command's tag, so the two commands are not
 	// ambiguous and the server may answer them in any order
 	anyOrder bool
+	// ext: extension kinds take part in pipelines of at most 2 (+1 dup) commands also in the
+	// thorough tier (the triples are over the core kinds)
+	ext bool
 	class string // ambiguity class: at most one pending command per class ("" = none)
 	lines int    // CRLFs the client writes for the command
 	issue func(c *imapclient.Client) handle
@@ -230,21 +233,21 @@ func kinds() []kind {
 		}},
 		// extensions the bundled server does not implement: their data responses are routed by the
 		// same dispatcher and can only be checked on the client side
-		{name: "SORT", class: "sort", lines: 1, data: []string{"* SORT 3 1 2"}, want: "3 1 2", issue: func(c *imapclient.Client) handle {
+		{name: "SORT", ext: true, class: "sort", lines: 1, data: []string{"* SORT 3 1 2"}, want: "3 1 2", issue: func(c *imapclient.Client) handle {
 			cmd := c.Sort(&imapclient.SortOptions{SearchCriteria: &imap.SearchCriteria{}, SortCriteria: []imapclient.SortCriterion{{Key: imapclient.SortKeyDate, Reverse: true}}})
 			return handle{func() (error, string) {
 				n, err := cmd.Wait()
 				return err, strings.Trim(fmt.Sprint(n), "[]")
 			}}
 		}},
-		{name: "UID SORT", class: "sort", dupOf: "SORT", lines: 1, data: []string{"* SORT 9"}, want: "9", issue: func(c *imapclient.Client) handle {
+		{name: "UID SORT", ext: true, class: "sort", dupOf: "SORT", lines: 1, data: []string{"* SORT 9"}, want: "9", issue: func(c *imapclient.Client) handle {
 			cmd := c.UIDSort(&imapclient.SortOptions{SearchCriteria: &imap.SearchCriteria{}, SortCriteria: []imapclient.SortCriterion{{Key: imapclient.SortKeySize}}})
 			return handle{func() (error, string) {
 				n, err := cmd.Wait()
 				return err, strings.Trim(fmt.Sprint(n), "[]")
 			}}
 		}},
-		{name: "THREAD", class: "thread", lines: 1, data: []string{"* THREAD (1 2)(3 (4)(5))"}, want: "[1 2];[3[4][5]]", issue: func(c *imapclient.Client) handle {
+		{name: "THREAD", ext: true, class: "thread", lines: 1, data: []string{"* THREAD (1 2)(3 (4)(5))"}, want: "[1 2];[3[4][5]]", issue: func(c *imapclient.Client) handle {
 			cmd := c.Thread(&imapclient.ThreadOptions{Algorithm: imap.ThreadReferences, SearchCriteria: &imap.SearchCriteria{}})
 			return handle{func() (error, string) {
 				d, err := cmd.Wait()
@@ -263,7 +266,7 @@ func kinds() []kind {
 				return err, strings.Join(parts, ";")
 			}}
 		}},
-		{name: "GETQUOTA", class: "quota", lines: 1, data: []string{"* QUOTA r1 (STORAGE 10 512)"}, want: "r1 STORAGE=10/512", issue: func(c *imapclient.Client) handle {
+		{name: "GETQUOTA", ext: true, class: "quota", lines: 1, data: []string{"* QUOTA r1 (STORAGE 10 512)"}, want: "r1 STORAGE=10/512", issue: func(c *imapclient.Client) handle {
 			cmd := c.GetQuota("r1")
 			return handle{func() (error, string) {
 				d, err := cmd.Wait()
@@ -273,7 +276,7 @@ func kinds() []kind {
 				return err, quotaStr(*d)
 			}}
 		}},
-		{name: "GETQUOTAROOT", class: "quota", dupOf: "GETQUOTA", lines: 1, data: []string{"* QUOTAROOT INBOX r2", "* QUOTA r2 (MESSAGE 1 2)"}, want: "r2 MESSAGE=1/2", issue: func(c *imapclient.Client) handle {
+		{name: "GETQUOTAROOT", ext: true, class: "quota", dupOf: "GETQUOTA", lines: 1, data: []string{"* QUOTAROOT INBOX r2", "* QUOTA r2 (MESSAGE 1 2)"}, want: "r2 MESSAGE=1/2", issue: func(c *imapclient.Client) handle {
 			cmd := c.GetQuotaRoot("INBOX")
 			return handle{func() (error, string) {
 				d, err := cmd.Wait()
@@ -284,7 +287,7 @@ func kinds() []kind {
 				return err, strings.Join(parts, ";")
 			}}
 		}},
-		{name: "GETMETADATA", class: "metadata", lines: 1, data: []string{`* METADATA m (/private/comment "x" /shared/comment NIL)`}, want: "m /private/comment=x /shared/comment=<nil>", issue: func(c *imapclient.Client) handle {
+		{name: "GETMETADATA", ext: true, class: "metadata", lines: 1, data: []string{`* METADATA m (/private/comment "x" /shared/comment NIL)`}, want: "m /private/comment=x /shared/comment=<nil>", issue: func(c *imapclient.Client) handle {
 			cmd := c.GetMetadata("m", []string{"/private/comment", "/shared/comment"}, nil)
 			return handle{func() (error, string) {
 				d, err := cmd.Wait()
@@ -307,7 +310,7 @@ func kinds() []kind {
 				return err, r
 			}}
 		}},
-		{name: "NAMESPACE", class: "namespace", lines: 1, data: []string{`* NAMESPACE (("" "/")) NIL (("shared/" "/"))`}, want: "[{ 47}] [] [{shared/ 47}]", issue: func(c *imapclient.Client) handle {
+		{name: "NAMESPACE", ext: true, class: "namespace", lines: 1, data: []string{`* NAMESPACE (("" "/")) NIL (("shared/" "/"))`}, want: "[{ 47}] [] [{shared/ 47}]", issue: func(c *imapclient.Client) handle {
 			cmd := c.Namespace()
 			return handle{func() (error, string) {
 				d, err := cmd.Wait()
@@ -341,7 +344,7 @@ func kinds() []kind {
 				return err, s
 			}}
 		}},
-		{name: "SEARCH esearch#2", class: "search", dupOf: "UID SEARCH esearch", anyOrder: true, lines: 1, data: []string{`* ESEARCH (TAG "%T") ALL 1:2 COUNT 2`}, want: "1:2 count=2", issue: func(c *imapclient.Client) handle {
+		{name: "SEARCH esearch#2", ext: true, class: "search", dupOf: "UID SEARCH esearch", anyOrder: true, lines: 1, data: []string{`* ESEARCH (TAG "%T") ALL 1:2 COUNT 2`}, want: "1:2 count=2", issue: func(c *imapclient.Client) handle {
 			cmd := c.Search(&imap.SearchCriteria{}, &imap.SearchOptions{ReturnAll: true, ReturnCount: true})
 			return handle{func() (error, string) {
 				d, err := cmd.Wait()
@@ -891,6 +894,16 @@ func enumerate(ks []kind, thorough bool) []item {
 				continue // one extra position only for the second command of an ambiguity class
 			}
 			ok := true
+			if len(prefix) >= 2 && ks[k].dupOf == "" {
+				for _, p := range prefix {
+					if ks[p].ext {
+						ok = false
+					}
+				}
+				if ks[k].ext {
+					ok = false
+				}
+			}
 			hasBase := ks[k].dupOf == ""
 			for _, p := range prefix {
 				if p == k || (ks[k].class != "" && ks[p].class == ks[k].class && ks[k].dupOf != ks[p].name) {
